@@ -63,6 +63,7 @@ def run(res, replay=None):
                             t2 = o2.get("trace") or []
                             cut = next((x for x in range(len(t2)) if t2[x][0] == "P"), len(t2))
                             out = restart_on(image_at(t2, min(cut + 1, len(t2)), base=img), TABLES, mem_kb=RMEM)
+                            out["depth3_prefix"] = t2[:min(cut + 1, len(t2))]
                         return job, out
                     img = base.copy()
                     out = None
@@ -86,6 +87,18 @@ def run(res, replay=None):
                     elif not any(all(out["rows"][t] == states[j][t] for t in TABLES) for j in allowed if j < len(states)):
                         bad = "tables after the repeated recovery differ from the transactions committed before the first crash: " + "; ".join(
                             "%s: engine %s | committed %s" % (t, out["rows"][t][:300], states[js[0]][t][:300]) for t in TABLES if out["rows"][t] != states[js[0]][t])
+                    last_prefix = out.get("depth3_prefix", rtrace[:k] if kind == "nested" else [])
+                    if "depth3_prefix" in out and any(e[0] == "G" for e in rtrace[:k]):
+                        last_prefix = [e for e in out["depth3_prefix"]]
+                    in_flush_phase = any(e[0] == "P" for e in last_prefix) and not any(e[0] == "G" for e in last_prefix)
+                    if "depth3_prefix" in out and not any(e[0] == "G" for e in rtrace[:k]):
+                        in_flush_phase = in_flush_phase or (any(e[0] == "P" for e in rtrace[:k]))
+                    if bad and kind == "nested" and in_flush_phase and losers(parse_log(base.log)):
+                        # known finding F-REC-NOCLR: the undo pass of recovery is not logged and does not stamp pages; a crash after
+                        # undone pages were written but before the log was truncated makes the next recovery undo the same transaction again
+                        res.known_hits["F-REC-NOCLR"] = ("recovery interrupted while flushing undone pages (before log truncation) with an unfinished transaction in the log: "
+                                                         "the next restart undoes it a second time (%s)" % bad[:160])
+                        continue
                     if bad and len(res.oracle_failures) < 5:
                         where = ("first crash at trace position %d; recovery interrupted after %d of its %d I/O events" % (p, sum(1 for e in rtrace[:k] if e[0] != "M"), sum(1 for e in rtrace if e[0] != "M"))
                                  if kind == "nested" else "first crash at trace position %d; recovery repeated %d times" % (p, k))
